@@ -83,7 +83,8 @@ def run(ctx):
     ncli = 0
     d = os.path.join(ctx.scratch, "cli12")
     os.makedirs(d, exist_ok=True)
-    bases = [c for c in R.cases if c["src"] == render.program(c["stmts"])][: (6 if quick else 40)]
+    # (ASCII-only programs: the command reads its input as Shift_JIS, so a UTF-8 string literal is a different text for it than for the API)
+    bases = [c for c in R.cases if c["src"].isascii() and c["src"] == render.program(c["stmts"])][: (6 if quick else 40)]
     for bi, b in enumerate(bases):
         for eol in ("\n", "\r\n", "\r"):
             for top in (0, 1):
